@@ -989,7 +989,7 @@ class Arr:
         return a
 
     def copy(self):
-        a = Arr(self.axes, self._fn, self.kind, self.label, self.term, dict(self.meta))
+        a = Arr(self.axes, self._fn, self.kind, self.label, self.term, {k: v for k, v in self.meta.items() if k != "view_of"})
         a.vecfn = self.vecfn
         return a
 
